@@ -240,7 +240,14 @@ impl Space for Presence {
         out.transitions += 4 + 2 * qnames.len() as u64;
         let c = match &p.common {
             None => {
-                out.violate("find_common_data:fails on a well-formed object", ctx);
+                // an object whose hash sections declare an unusual entry size may be rejected as a whole
+                // (loudly); what may not happen is that the discovery and the targeted paths disagree
+                let unusual = (subset & HASH != 0 && ![4u64, 0][..].contains(&[4, 0, 8, 1, 16][d[2] as usize % 5])) || (subset & GNUHASH != 0 && d[2] % 3 == 2);
+                if unusual {
+                    out.count("rejected_with_unusual_hash_entsize");
+                } else {
+                    out.violate("find_common_data:fails on a well-formed object", ctx);
+                }
                 return;
             }
             Some(c) => c,
